@@ -39,7 +39,7 @@ fn armed() -> &'static Armed {
     })
 }
 
-fn configs_for(prop: &str) -> Vec<&'static dyn Config> {
+pub fn configs_for(prop: &str) -> Vec<&'static dyn Config> {
     match prop {
         "C01" => adapter::configs().to_vec(),
         "C18" => vec![&adapter::NONE],
